@@ -1796,3 +1796,70 @@ def scatter(I, st, base, A, X, value, node):
     st.set_arr(base, Arr(A.shape, lambda i, *r: z3.If(z3.And(to_z3(i, "int") < to_z3(mask.shape[0], "int"), to_z3(mask.at(i))),
                                                       to_z3(V.at(inv(to_z3(i, "int")), *r)), to_z3(A.at(i, *r))), A.sort,
                          prov=("scatter", A, mask, V)))
+
+
+# ----------------------------------------------------------------------------- further equivalent-primitive models
+@ext("numpy.take", "np.take(a, idx, axis=0): the same gather as a[idx]")
+def np_take(I, st, args, kw, node):
+    axis = kw.get("axis", args[2] if len(args) > 2 else None)
+    A = arr_of(st, args[0])
+    if A is None or axis not in (0, None) or (axis is None and A.ndim != 1):
+        raise Unsupported("np.take axis")
+    return arr_getitem(I, st, A, args[1], node)
+
+
+def _method_via(name):
+    def h(I, st, args, kw, node):
+        return EXT[name](I, st, args, kw, node)
+    return h
+
+
+for _m, _f in (("max", "numpy.max"), ("any", "numpy.any"), ("all", "numpy.all"), ("cumsum", "numpy.cumsum"), ("dot", "numpy.dot")):
+    if ("method", "arr", _m) not in EXT and _f in EXT:
+        EXT[("method", "arr", _m)] = _method_via(_f)
+
+
+@ext("numpy.count_nonzero", "np.count_nonzero(mask): the number of True entries (the m of the L-MASK selection)")
+def np_count_nonzero(I, st, args, kw, node):
+    A = arr_of(st, args[0])
+    if A is None or A.ndim != 1 or A.sort != "bool":
+        raise Unsupported("count_nonzero of a non-mask")
+    m, sel, inv = mask_selection(I, st, A)
+    return m
+
+
+@ext("numpy.flatnonzero", "np.flatnonzero(mask): the increasing indices of the True entries (L-MASK)")
+def np_flatnonzero(I, st, args, kw, node):
+    A = arr_of(st, args[0])
+    if A is None or A.ndim != 1 or A.sort != "bool":
+        raise Unsupported("flatnonzero of a non-mask")
+    m, sel, inv = mask_selection(I, st, A)
+    return st.new_arr(Arr((m,), lambda k: sel(to_z3(k, "int")), "int", prov=("where", A, sel, m)))
+
+
+@ext("numpy.subtract", "np.subtract / np.add / np.multiply / np.divide without out=: the binary operators")
+def np_subtract(I, st, args, kw, node):
+    if kw.get("out") is not None:
+        raise Unsupported("ufunc with out=")
+    return binop(I, st, ast.Sub(), args[0], args[1], node)
+
+
+@ext("numpy.add")
+def np_add(I, st, args, kw, node):
+    if kw.get("out") is not None:
+        raise Unsupported("ufunc with out=")
+    return binop(I, st, ast.Add(), args[0], args[1], node)
+
+
+@ext("numpy.multiply")
+def np_multiply(I, st, args, kw, node):
+    if kw.get("out") is not None:
+        raise Unsupported("ufunc with out=")
+    return binop(I, st, ast.Mult(), args[0], args[1], node)
+
+
+@ext("numpy.divide")
+def np_divide(I, st, args, kw, node):
+    if kw.get("out") is not None:
+        raise Unsupported("ufunc with out=")
+    return binop(I, st, ast.Div(), args[0], args[1], node)
